@@ -1,5 +1,11 @@
 """Per-property configuration of ./check: which correspondence suites run, build mode, notes."""
 PROPS = {
+    "C01": dict(suites=["rt"]),
+    "C02": dict(suites=["nsc"]),
+    "C03": dict(suites=["recon"]),
+    "C04": dict(suites=["rsmat"]),
+    "C05": dict(suites=["xor"]),
+    "C06": dict(suites=["need"]),
     "C07": dict(suites=["wire"]),
     "C08": dict(suites=["wire"]),
     "C09": dict(suites=["hdr"]),
